@@ -75,5 +75,22 @@ Example abut_scan_equals_spec :
   scan_file LJava cex_abut = expected_all cex_abut cex_abut_ds cex_abut_ds.
 Proof. vm_compute. repeat split; reflexivity. Qed.
 
+(* why tsq_tok has the premise type_next_ok: return types in which a header shape of its own begins
+   (each stream is  f ( ) : ty { } ; the second header starts inside ty) *)
+Definition cex_ty_call : list token :=      (* ty = Foo ( x ) *)
+  toks [(1,[102]);(2,[40]);(2,[41]);(3,s_colon);(1,[70]);(2,[40]);(1,[120]);(2,[41]);(2,[123]);(2,[125])]%Z.
+Definition cex_ty_call_ret : list token :=  (* ty = Foo ( x ) : T *)
+  toks [(1,[102]);(2,[40]);(2,[41]);(3,s_colon);(1,[70]);(2,[40]);(1,[120]);(2,[41]);(3,s_colon);(1,[84]);(2,[123]);(2,[125])]%Z.
+Definition cex_ty_function : list token :=  (* ty = function g ( x ) *)
+  toks [(1,[102]);(2,[40]);(2,[41]);(3,s_colon);(0,s_function);(1,[103]);(2,[40]);(1,[120]);(2,[41]);(2,[123]);(2,[125])]%Z.
+Definition cex_ty_arrow : list token :=     (* ty = x = ( a ) => *)
+  toks [(1,[102]);(2,[40]);(2,[41]);(3,s_colon);(1,[120]);(3,s_eq);(2,[40]);(1,[97]);(2,[41]);(2,s_arrow);(2,[123]);(2,[125])]%Z.
+Example cex_type_seq_headers :
+  lexical_headers_of LTypeScript cex_ty_call = [mkHeader 0 0 3; mkHeader 4 4 8] /\
+  lexical_headers_of LTypeScript cex_ty_call_ret = [mkHeader 0 0 3; mkHeader 4 4 8] /\
+  lexical_headers_of LTypeScript cex_ty_function = [mkHeader 0 0 3; mkHeader 5 4 9] /\
+  lexical_headers_of LTypeScript cex_ty_arrow = [mkHeader 0 0 3; mkHeader 4 4 10].
+Proof. vm_compute. repeat split; reflexivity. Qed.
+
 Print Assumptions cex_java_header.
 Print Assumptions cex_ts_type_no_header.
